@@ -2,6 +2,7 @@ import Tickit.Proof.WinInput
 import Tickit.Proof.WinInputSafe
 import Tickit.Proof.WinInputDeliver
 import Tickit.Proof.WinInputBind
+import Tickit.Proof.WinInputMove
 import Tickit.Gen.WinInputCfg
 import Tickit.Gen.InputXlate
 /-
@@ -45,6 +46,11 @@ import Tickit.Gen.InputXlate
          bound is invoked, in binding order, up to the first claim ... `own_handlers_under_mutation`,
                                                                      `own_handlers_all_when_declined`,
                                                                      `gone_handler_never_invoked`, `oneshot_at_most_once`
+    position relative to the receiving window when handlers MOVE windows from inside the dispatch
+         (`tickit_window_set_geometry`, action `geom`): the windows the handlers do not act on are given the position
+         relative to themselves, whatever was moved, resized, closed … before they were offered the event
+         ........................................................... `mouse_relative_under_moves`,
+                                                                     `mouse_relative_under_moves_origin`, `geom_is_confined_action`
     mouse input that arrives as X10 bytes (libtermkey's decoding modelled: `x10Key`; `got_key` = the C20 model): the
          events of a report, the held-button record, the button of a button-less release, and with it DRAG_DROP /
          DRAG_STOP consistent with the press that began the drag .... `x10_report_events`, `x10_wheel_keeps_held`,
@@ -1364,5 +1370,72 @@ open Scenario in
 example : x10Calls [(64, 1, 2), (2, 1, 2), (34, 2, 2), (34, 4, 2), (3, 4, 2)] =
     some [(1, 4, 1), (1, 1, 3), (1, 257, 3), (1, 2, 3), (2, 2, 3), (1, 258, 3), (2, 259, 3), (1, 260, 3), (2, 3, 3)] := by
   decide +kernel
+
+/-! ### windows that are moved from inside the dispatch
+
+  A mouse handler may call `tickit_window_set_geometry` (action `geom`): a marker that follows the pointer and lets the
+  event through, a window that is dragged along.  The window behind it, its parent, the drag source must still be given
+  the position relative to *themselves*: `_handle_mouse` hands every child a translated copy of the event, so what a
+  child's subtree does to the child's rectangle cannot reach the event the next sibling and the parent see. -/
+
+/-- A `geom` action is confined to `A` exactly when its target is a window of `A` (so `Conf`, `Unaffected` and the
+    delivery theorems above cover handlers that move windows of `A`). -/
+theorem geom_is_confined_action (A : Aff) (w : WinTree.Id) (dt dl dn dc : Int) :
+    ActConf A ⟨.geom dt dl dn dc, w⟩ ↔ A w = true := Iff.rfl
+
+/-- **mouse_relative under moves.**  Let the handlers act on windows of `A` only (`Unaffected`: close, unref, hide,
+    show, steal-input and **set_geometry** — move / resize — of windows of `A`; restack and ref anything), and let a
+    mouse event that stands for the terminal cell `(L, C)` be dispatched to `win` (`RelTo`: its position is `(L, C)`
+    minus `win`'s origin).  Then, whatever the handlers do and claim, every offer to and every handler call of a window
+    **outside `A`** carries the position of `(L, C)` relative to that window (`PosItem`: the cell minus the sum of the
+    offsets along its parent chain, in the tree as it was when the dispatch began — these windows and their ancestors
+    were not moved). -/
+theorem mouse_relative_under_moves (A : Aff) (fuel : Nat) (st st' : St) (win : WinTree.Id) (ev : Ev) (r : Option WinTree.Id)
+    (L C : Int) (hu : Unaffected A st) (hal : Alive st.tree win) (hpos : A win = false → RelTo st.tree L C win ev)
+    (h : handleMouse Cfg.repaired fuel st win ev = Out.ok (st', r)) :
+    ∃ new, st'.log = new ++ st.log ∧ ∀ i ∈ new, PosItem A st.tree L C i :=
+  (handleMouse_pos hu.base L C fuel st win ev [] st' r hu.dinv hal hpos h).1
+
+/-- The hypothesis `RelTo` of the dispatches `on_term_mouse` makes: the event itself goes to the root with the terminal
+    cell (the root lies at its own offset, (0,0) in every state the engine builds), DRAG_STOP / DRAG_OUTSIDE go to the
+    drag source with the cell minus `tickit_window_get_abs_geometry` (`toDragSource`). -/
+theorem mouse_relative_under_moves_origin (t : Tree) (f : Nat) (src : WinTree.Id) (g : Rect) (ev : Ev) (type : Int)
+    (hg : absGeometry t f src = Res.ok g) :
+    RelTo t ev.line ev.col src { type := type, button := ev.button, line := ev.line - g.top, col := ev.col - g.left } :=
+  ⟨g.top, g.left, absGeometry_origin hg, rfl, rfl⟩
+
+namespace Scenario
+
+/-- The reviewers' demonstration, scaled down: a back window 1 that claims, a marker 2 in front of it whose handler moves
+    the marker by (1,2) and declines; window 3 inside a parent 4 … kept small: back, marker, root. -/
+def markerMoves : Option St :=
+  build [opWin 0 ⟨2, 2, 5, 12⟩, opWin 0 ⟨4, 4, 3, 3⟩,
+         opBind 1 .mouse [claim], opBind 2 .mouse [{ ret := false, actions := [⟨.geom 1 2 0 0, 2⟩] }],
+         opBind 0 .mouse [decl]] (newSt 10 20)
+
+/-- The handler calls of a press at terminal cell (5,5): (window, line, col), oldest first; and where the marker is then. -/
+def markerRun : Option (List (WinTree.Id × Int × Int) × Option (Int × Int)) :=
+  markerMoves.bind fun s =>
+    match emitMouse Cfg.repaired s { type := evPress, button := 1, line := 5, col := 5 } with
+    | .ok s' => some ((callsOf s'.log).filterMap (fun i => match i with | .call _ w _ _ _ e => some (w, e.line, e.col) | _ => none),
+        (s'.tree.wins[2]?).map fun w => (w.rect.top, w.rect.left))
+    | _ => none
+
+end Scenario
+
+open Scenario in
+/-- Non-vacuity: the marker (window 2, at (4,4)) is given (1,1), moves itself to (5,6) and declines; the window behind it
+    (window 1, at (2,2)) is given (3,3) — its own coordinates, not displaced by the move — and claims.  The hypotheses of
+    `mouse_relative_under_moves` hold of this state with `A` = {2}. -/
+example : markerRun = some ([(2, 1, 1), (1, 3, 3)], some (5, 6)) ∧
+    ∃ st, markerMoves = some st ∧ Unaffected (fun x => x == 2) st := by
+  refine ⟨by decide +kernel, ?_⟩
+  have h : (markerMoves.map fun s => unaffectedCheck (fun x => x == 2) s) = some true := by decide +kernel
+  cases hb : markerMoves with
+  | none => rw [hb] at h; simp at h
+  | some st =>
+    rw [hb] at h
+    simp only [Option.map_some, Option.some.injEq] at h
+    exact ⟨st, rfl, unaffectedCheck_sound h⟩
 
 end Tickit.Props.C14
